@@ -50,7 +50,7 @@ func (r *Run) AddPeer() *Peer {
 	i := len(r.Peers)
 	ip := fmt.Sprintf("10.250.1.%d", i+1)
 	p := &Peer{r: r, Idx: i, IP: ip, Addr: net.JoinHostPort(ip, PFCPPort), NodeID: ip,
-		TS: time.Date(2026, 1, 1, 0, 0, 0, 0, time.UTC).Add(-time.Duration(i+1) * time.Hour),
+		TS:               time.Date(2026, 1, 1, 0, 0, 0, 0, time.UTC).Add(-time.Duration(i+1) * time.Hour),
 		AnswerHeartbeats: true, AnswerReports: true, ReportCause: ie.CauseRequestAccepted,
 		Sessions: map[uint64]*CPSession{}, nextSEID: uint64(0x1000 * (i + 1))}
 	p.seq = uint32(100 * (i + 1))
